@@ -21,7 +21,13 @@ var c09Sets = []SetChoice{
 	{Spec: grid.Spec{Name: "EuropeanETRS89_LAEAQuad"}, Bases: []int{0, 8, 13}},
 	{Spec: grid.Spec{Name: "WorldMercatorWGS84Quad"}, Bases: []int{3, 12}},
 	{Spec: grid.Spec{Name: "NZTM2000Quad"}, Bases: []int{0, 10}},
+	// twins (see gridZoo): same id, origin numbers, corner, root cell size and tile size, three different extents
+	{Spec: grid.Spec{Depth: 4, Cell: 16, Origin: 1234.25, OriginY: c09f(-777.5)}, Bases: []int{0, 1}},
+	{Spec: grid.Spec{Depth: 4, Cell: 16, Origin: -777.5, OriginY: c09f(1234.25), AxesXY: true}, Bases: []int{0, 1}},
+	{Spec: grid.Spec{Depth: 3, Cell: 32, Origin: 1234.25, OriginY: c09f(-777.5), RootMatrix: 2}, Bases: []int{0, 1}},
 }
+
+func c09f(v float64) *float64 { return &v }
 
 type outsideWhere struct {
 	side string // left bottom right top
